@@ -57,6 +57,12 @@ def _impl(tier, seed, search):
         # --- constructors follow the documented orders ------------------------------------------
         L.close(f'rpy2r-order-{o}', b.rpy2r(a, order=o), fwd_rpy(a, o), 1e-12, 1.0, dict(angles=a, order=o))
         L.close('rpy2r-deg', b.rpy2r(np.degrees(a), order=o, unit='deg'), b.rpy2r(a, order=o), 1e-12, 1.0, dict(angles=a, order=o))
+        # … in every class that offers the constructor, for every order and alias
+        for cn_, f_ in (('SO3.RPY', lambda: SO3.RPY(a, order=o).A), ('SE3.RPY', lambda: SE3.RPY(a, order=o).A[:3, :3]), ('UnitQuaternion.RPY', lambda: UnitQuaternion.RPY(a, order=o).R), ('rpy2tr', lambda: b.rpy2tr(a, order=o)[:3, :3]),
+                        ('UnitQuaternion.RPY(deg)', lambda: UnitQuaternion.RPY(np.degrees(a), order=o, unit='deg').R)):
+            ok, r_ = L.noraise(f'{cn_}-order', f_, dict(angles=a, order=o), f'{cn_}(order={o})')
+            if ok: L.close(f'{cn_}-order-{o}', r_, fwd_rpy(a, o), 1e-7 if 'Quaternion' in cn_ else 1e-9, 1.0,      # (through r2q: sqrt(eps) conditioning at a half turn)
+                             dict(angles=a, order=o), what=f'{cn_} does not build the documented product for order {o}', sig=f'class-rpy-order:{cn_.split("(")[0]}')
         e = np.array([outer_angle(), sing_angle(g, [0.0, PI, -PI]), outer_angle()])
         L.close('eul2r-order', b.eul2r(e), fwd_eul(e), 1e-12, 1.0, dict(angles=e))
         # --- rpy round trip ---------------------------------------------------------------------
